@@ -21,6 +21,7 @@ OUT = os.path.join(ROOT, 'out')
 EVID = os.path.join(ROOT, 'evidence')
 VIOLATION_KINDS = {'post', 'pre', 'safety'}
 SEARCH_FALLBACK = {}   # unit -> replay search cases usable when the verifier is undecided
+BOUNDED = {}           # prop -> [dict(case, function, bound, why)] : enumeration stand-ins for functions outside the verifier's reach
 
 
 def load_known_findings():
@@ -38,6 +39,10 @@ def load_units():
         for name, (props, builder) in getattr(mod, 'UNITS', {}).items():
             units[name] = (props, builder, m.name)
             SEARCH_FALLBACK[name] = getattr(mod, 'SEARCH', {}).get(name, [])
+        for prop, lst in getattr(mod, 'BOUNDED', {}).items():
+            BOUNDED.setdefault(prop, [])
+            for b in lst:
+                if b not in BOUNDED[prop]: BOUNDED[prop].append(b)
     return units
 
 
@@ -159,7 +164,7 @@ def main(argv=None):
     harnesses = [] if a.no_kani else kani_engine.harnesses_for(prop, a.tier)
     if a.unit:
         harnesses = [h for h in harnesses if h['name'] in a.unit]
-    if not units and not harnesses:
+    if not units and not harnesses and not BOUNDED.get(prop):
         print(f'no units registered for {prop}')
         return 2
 
@@ -247,6 +252,25 @@ def main(argv=None):
             elif h['status'] == 'undecided':
                 print(f'UNDECIDED harness={h["name"]}: {h.get("reason", "")}')
                 if exit_code == 0: exit_code = 2
+    # --- bounded stand-ins (replay enumeration of the executable contract on the real code; never counted as proved)
+    bounded_results = []
+    for b in BOUNDED.get(prop, []):
+        w = replay_engine.search_case(b['case'], seed, list(kf_open.keys()))
+        rec = dict(b, status='ok', tried=w.get('tried'))
+        if w.get('reproduced'):
+            rec['status'] = 'violation'
+            payload = dict(property=prop, unit=b['case'], engine='bounded replay enumeration', obligation=f"executable contract `{b['case']}` of {b['function']}",
+                           verifier_output='(no deductive verifier reaches this function: ' + b['why'] + ')', witness=w,
+                           how_to_replay=f'./check {prop} --replay <this file>')
+            p = write_replay(prop, b['case'], 'bounded', payload)
+            print(f'  witness on the real code: input={json.dumps(w["input"])} observed={w["observed"]} contract says {w["expected"]}')
+            lines.append(f'VIOLATION property={prop} replay={p}')
+            nviol += 1; exit_code = 1
+        elif w.get('note'):
+            rec['status'] = 'undecided'; rec['note'] = w['note']
+            print(f'UNDECIDED bounded={b["case"]}: {w["note"][:300]}')
+            if exit_code == 0: exit_code = 2
+        bounded_results.append(rec)
     # --- known findings: re-confirm each open one on the real code
     kf_lines = []
     kf_notes = []
@@ -266,7 +290,7 @@ def main(argv=None):
 
     wall = time.time() - t0
     if not a.no_evidence:
-        write_evidence(prop, a.tier, seed, outcomes, kres, kf_open, kf_lines, kf_notes, nviol, exit_code, wall, findings)
+        write_evidence(prop, a.tier, seed, outcomes, kres, kf_open, kf_lines, kf_notes, nviol, exit_code, wall, findings, bounded_results)
     status = {0: 'HELD', 1: 'VIOLATION', 2: 'UNDECIDED'}[exit_code]
     nobl = sum(len(o.main.ledger) for o in outcomes if o.main)
     print(f'{prop}: {status} ({len(outcomes)} verus unit(s), {nobl} verus obligations, '
@@ -274,7 +298,7 @@ def main(argv=None):
     return exit_code
 
 
-def write_evidence(prop, tier, seed, outcomes, kres, kf_open, kf_lines, kf_notes, nviol, exit_code, wall, findings):
+def write_evidence(prop, tier, seed, outcomes, kres, kf_open, kf_lines, kf_notes, nviol, exit_code, wall, findings, bounded_results=()):
     os.makedirs(EVID, exist_ok=True)
     obligations = discharged = 0
     fns = []
@@ -347,6 +371,9 @@ def write_evidence(prop, tier, seed, outcomes, kres, kf_open, kf_lines, kf_notes
             samples.append(dict(engine='kani', harness=h['name'], contract=h.get('contract'), status=h['status']))
         trusted += kres.get('trusted', [])
         assumptions += kres.get('assumptions', [])
+    for b in bounded_results:
+        bounded.append(dict(stand_in='replay enumeration', case=b['case'], function=b['function'], bound=b['bound'], inputs_tried=b.get('tried'), status=b['status'],
+                            why_not_deductive=b['why'], note='bounded stand-in: NOT counted in obligations/discharged'))
     for n in kf_notes: assumptions.append('known finding note: ' + n)
     level = 'proof'
     man = json.load(open(os.path.join(ROOT, 'MANIFEST.json')))
